@@ -767,7 +767,10 @@ Bucket_maxminKey(Bucket *self, PyObject *args, int min)
         if ((rc = Bucket_findRangeEnd(self, key, min, 0, &offset)) <= 0)
         {
             if (rc < 0)
+            {
+                PER_UNUSE(self);
                 return NULL;
+            }
             empty_bucket = 0;
             goto empty;
         }
@@ -1025,7 +1028,10 @@ bucket_byValue(Bucket *self, PyObject *omin)
 
     COPY_VALUE_FROM_ARG(min, omin, copied);
     UNLESS(copied)
+    {
+        PER_UNUSE(self);
         return NULL;
+    }
 
     for (i=0, l=0; i < self->len; i++)
         if (TEST_VALUE(self->values[i], min) >= 0)
